@@ -79,6 +79,7 @@ pub struct State {
     pub max_steps: u64,
     pub poll_io: bool,
     pub stale_polls: u32,
+    pub spin_quantum: u64,
     /// file-name suffixes whose hook points are schedule points (empty = all)
     pub sched_files: Vec<&'static str>,
     pub oracle_fail: Vec<String>,
@@ -136,11 +137,19 @@ impl State {
                     // earliest pending deadline (a stalled thread, a timer) come due first
                     advanced_for_spin = true;
                     spin_case = true;
+                    // they must run (and poll again) before time may pass for their sake a second time
+                    for &i in &ready {
+                        self.threads[i].spinning = false;
+                    }
                 } else if cand.is_empty() {
                     for &i in &ready {
                         self.threads[i].yielded = false;
                     }
                     cand = ready.clone();
+                }
+                if !spin_case && !advanced_for_spin {
+                    // somebody who is not polling can run: polling so far has cost (almost) no time
+                    self.spin_quantum = 20_000;
                 }
                 if !spin_case {
                 let choice = match self.strategy {
@@ -188,8 +197,18 @@ impl State {
                     best.push((d, i));
                 }
             }
-            if spin_case && best_nonstale.is_none() {
-                continue; // nothing to wait for: let the spinners run
+            if spin_case {
+                // polling costs a growing quantum of virtual time, at most up to the next deadline
+                let q = self.spin_quantum;
+                self.spin_quantum = (q * 2).min(5_000_000);
+                match best_nonstale {
+                    Some(d) if d <= self.now + q => {} // the deadline comes due: fall through and wake it
+                    Some(_) => {
+                        self.now += q;
+                        continue; // let the spinners poll again
+                    }
+                    None => continue, // nobody to wait for: no time passes
+                }
             }
             if best.is_empty() {
                 self.hang = Some("all threads blocked, no timer pending".into());
@@ -749,6 +768,7 @@ pub fn run(cfg: Config, body: impl FnOnce(&Ctx)) -> ! {
         max_steps: cfg.max_steps,
         poll_io: cfg.poll_io,
         stale_polls: 0,
+        spin_quantum: 20_000,
         sched_files: cfg.sched_files.clone(),
         oracle_fail: vec![],
         stall_n: cfg.stall_n,
